@@ -7,9 +7,9 @@ CONSTANTS
   MaxFail = 0
   MaxKill = 1
   Eager = FALSE
-  CloseErr = FALSE
+  CloseErr = TRUE
   Defect_LateCloseUnderLock = FALSE
-  Defect_AddDeadConn = TRUE
-  Mut = "none"
+  Defect_AddDeadConn = FALSE
+  Mut = "closeunderlock"
 INVARIANTS TypeOK NoSelfDeadlock SizeBound OneFiller ClosedEmpty ReportedNotInPool NoStray NoLeakAfterClose
 CHECK_DEADLOCK FALSE
